@@ -37,20 +37,26 @@ ASSUMPTIONS = [
     "configuration is fixed at construction of the long-lived objects, as documented",
     "effects: the project directory and a private TMPDIR/TEMP/TMP are the observed locations",
 ]
-BUDGET_S = {"quick": 150, "thorough": 1500}
+BUDGET_S = {"quick": 210, "thorough": 1500}
 
 # per-language overrides: a verdict must depend on the file's own language, never on which language the object saw first
 CONFIG = {"dry": {"enabled": True, "min_duplicate_lines": 3},
           "nesting": {"max_nesting_depth": 5, "python": {"max_nesting_depth": 1}, "typescript": {"max_nesting_depth": 2}},
           "srp": {"max_methods": 9, "python": {"max_methods": 7}, "typescript": {"max_methods": 8}},
           "magic-numbers": {"allowed_numbers": [0, 1, 2], "python": {"allowed_numbers": [0, 1, 2, 41]}, "typescript": {"allowed_numbers": [0, 1, 2, 43]}}}
-PATHS = ["a.py", "b.py", "c.py", "pkg/d.py", "e.ts", "pkg/f.ts"]
+PATHS = ["a.py", "b.py", "c.py", "pkg/d.py", "e.ts", "pkg/f.ts", "tool"]  # tool: an extension-less script, what it is depends on its first line
 CROSS = ("dry.", "stringly-typed.")
 
 
 def content(path, variant):
     """Variant 0..2 of a file: different per-file findings; variants 0 and 1 carry the shared duplicate block
     and string set (so edits to variant 2 / deletions remove a cross-file partner)."""
+    if path == "tool":
+        # variant 1 is a shell script (no source language), variants 0 and 2 are Python scripts with different findings
+        if variant % 3 == 1:
+            return "#!/bin/sh\necho tool\n"
+        body = content("a.py", variant)
+        return "#!/usr/bin/env python3\n" + body.replace("_0_", "_6_")
     lang = "py" if path.endswith(".py") else "ts"
     idx = PATHS.index(path)
     fams = [f for f in seeds.families(lang) if f != "lazy"]
@@ -120,6 +126,36 @@ def lint_call(obj, kind, root, arg):
     raise ValueError(kind)
 
 
+_SUB = """
+import json, os, sys
+from pathlib import Path
+sys.path.insert(0, {repo!r})
+kind, root, arg = json.loads(sys.argv[1])
+def d(v):
+    return {{"rule_id": v.rule_id, "file_path": str(v.file_path), "line": v.line, "column": v.column, "message": v.message}}
+if kind.startswith("l-"):
+    from src.api import Linter
+    obj = Linter(config_file=None, project_root=root)
+    out = obj.lint(os.path.join(root, arg) if arg else root)
+else:
+    from src.orchestrator.core import Orchestrator
+    obj = Orchestrator(project_root=Path(root))
+    out = obj.lint_file(Path(root) / arg) if kind == "o-file" else (obj.lint_files([Path(root) / a for a in arg]) if kind == "o-files" else obj.lint_directory(Path(root)))
+print(json.dumps([d(v) for v in out]))
+"""
+
+
+def lint_in_subprocess(kind, root, arg):
+    import json
+    import subprocess
+
+    code = _SUB.format(repo=runner.REPO)
+    r = subprocess.run([runner.PYTHON, "-c", code, json.dumps([kind, root, arg])], capture_output=True, text=True, timeout=300, cwd=root, env=runner.sub_env())
+    if r.returncode != 0:
+        raise runner.HarnessError(f"C08 subprocess reference failed: {r.stderr[-600:]}")
+    return json.loads(r.stdout.strip().splitlines()[-1])
+
+
 def classify(diff_only_used, diff_only_fresh):
     """Signature for a used-vs-fresh difference."""
     rules = sorted({k[0].split(".")[0] for k in list(diff_only_used) + list(diff_only_fresh)})
@@ -140,6 +176,8 @@ def check_history(case) -> Case:
         interesting = False
         contributed = set()
         seq = []
+        touched_tool = any(st_.get("path") == "tool" for st_ in steps if st_["op"] in ("write", "edit", "delete"))
+        last_lint = max([i for i, st_ in enumerate(steps) if st_["op"] not in ("write", "edit", "delete")] + [-1])
         for i, st_ in enumerate(steps):
             op = st_["op"]
             seq.append(op)
@@ -178,6 +216,16 @@ def check_history(case) -> Case:
                 want = lint_call(fresh_obj, kind, root, arg)
             a, b = ms(got, root), ms(want, root)
             lint_steps += 1
+            if a == b and i == last_lint and (touched_tool or int(h(case)[:4], 16) % 3 == 0):
+                # module-level caches survive a "fresh" object of the same process: the last call of every history is also
+                # compared with the same call made in a new interpreter
+                c = ms(lint_in_subprocess(kind, root, arg), root)
+                if c != a:
+                    only_used, only_new = list((a - c).elements()), list((c - a).elements())
+                    rules, side = classify(only_used, only_new)
+                    failures.append(Failure(f"history|{kind}|{rules}|{side}|vs-new-process", {"step": i, "call": [kind, arg], "only_in_this_process": only_used[:4],
+                                                                                            "only_in_new_process": only_new[:4], "steps_so_far": steps[: i + 1], "initial": case["initial"]}))
+                    break
             if mutated_since_lint and lint_steps >= 2 and any(k[0].startswith(CROSS) for k in (a + b)):
                 interesting = True
             for k in b:
@@ -334,11 +382,11 @@ def check(case) -> Case:
 
 
 def run(ctx):
-    ctx.explore(histories(), check, max_examples=ctx.n(60, 600), salt=1)
-    ctx.explore(orders(), check, max_examples=ctx.n(4, 50), salt=2)
     cells = effect_cells()
     done = ctx.each(ctx.my_cells(cells), check)
     ctx.stats.extra.setdefault("matrix", {})["effects: command x {sequential, parallel} + dry storage x cache options"] = {"cells": len(ctx.my_cells(cells)), "done": done}
+    ctx.explore(orders(), check, max_examples=ctx.n(4, 50), salt=2)
+    ctx.explore(histories(), check, max_examples=ctx.n(60, 600), salt=1)
 
 
 def replay(case) -> Case:
